@@ -8,34 +8,54 @@ from .engine import Unsupported, find_function
 
 PINS = os.path.join(os.path.dirname(os.path.abspath(__file__)), 'rest_pins.json')
 GROUPS = {
-    'validators': {'deal/_runtime/_validators.py': ['_get_signature', 'AttrDict.__getattr__', 'Validator.exception_type', 'Validator._wrap_vaa', 'Validator.init', 'Validator._init',
+    'validators': {'deal/_runtime/_validators.py': ['<constants>', '_get_signature', 'AttrDict.__getattr__', 'Validator.exception_type', 'Validator._wrap_vaa', 'Validator.init', 'Validator._init',
                                                     'Validator._vaa_validation', 'RaisesValidator.__init__', 'RaisesValidator.init', 'RaisesValidator._init', 'ReasonValidator.__init__',
                                                     'InvariantValidator._vaa_validation']},
-    'patcher': {'deal/_runtime/_has_patcher.py': ['PatchedStringIO.__init__', 'PatchedSocket.__init__', 'HasPatcher.exception_type']},
-    'state': {'deal/_state.py': ['_State._warn_if']},
-    'dispatch': {'deal/_runtime/_dispatch.py': ['Dispatch.wrap'], 'deal/_runtime/_decorators.py': ['dispatch'], 'deal/_exceptions.py': ['NoMatchError.__init__', 'NoMatchError.__str__']},
-    'errors': {'deal/_exceptions.py': ['ContractError.__init__', 'ContractError.source', 'ContractError.colored_source', 'ContractError.variables', 'ContractError.__str__']},
+    'patcher': {'deal/_runtime/_has_patcher.py': ['<constants>', 'PatchedStringIO.__init__', 'PatchedSocket.__init__', 'HasPatcher.exception_type']},
+    'state': {'deal/_state.py': ['<constants>', '_State._warn_if']},
+    'dispatch': {'deal/_runtime/_dispatch.py': ['<constants>', 'Dispatch.wrap'], 'deal/_runtime/_decorators.py': ['dispatch'], 'deal/_exceptions.py': ['NoMatchError.__init__', 'NoMatchError.__str__']},
+    'errors': {'deal/_exceptions.py': ['<constants>', 'ContractError.__init__', 'ContractError.source', 'ContractError.colored_source', 'ContractError.variables', 'ContractError.__str__']},
     'decorators': {'deal/_runtime/_decorators.py': ['implies', 'catch', 'inherit']},
-    'testing': {'deal/_testing.py': ['TestCase._check_result', 'cases.__init__', 'cases.__iter__', 'cases.__repr__', 'cases._make_case', 'cases._contracts', 'cases._pres', 'cases.strategy',
+    'testing': {'deal/_testing.py': ['<constants>', 'TestCase._check_result', 'cases.__init__', 'cases.__iter__', 'cases.__repr__', 'cases._make_case', 'cases._contracts', 'cases._pres', 'cases.strategy',
                                      'cases._default_settings', 'cases.__call__', 'cases.__func__', 'cases._run', 'cases._impersonate']},
-    'imports': {'deal/_imports.py': ['DealLoader.__init__', 'DealLoader.__getattr__']},
-    'lintcontract': {'deal/linter/_contract.py': ['Contract.__init__', 'Contract.validator', 'Contract.raw_validator', 'Contract.arguments', 'Contract.dependencies', 'Contract._resolve_name',
+    'imports': {'deal/_imports.py': ['<constants>', 'DealLoader.__init__', 'DealLoader.__getattr__']},
+    'lintcontract': {'deal/linter/_contract.py': ['<constants>', 'Contract.__init__', 'Contract.validator', 'Contract.raw_validator', 'Contract.arguments', 'Contract.dependencies', 'Contract._resolve_name',
                                                   'Contract.exceptions', 'Category.brackets_optional'],
                      'deal/linter/_func.py': ['Func.line', 'Func.col', 'Func.has_self', 'Func.from_text', 'Func.from_ast', 'Func._get_funcs_ast', 'Func.from_astroid', 'Func._get_funcs_astroid',
                                               'Func.has_contract'],
-                     'deal/linter/_extractors/contracts.py': ['get_contracts', '_get_contracts', '_resolve_inherit']},
+                     'deal/linter/_extractors/contracts.py': ['<constants>', 'get_contracts', '_get_contracts', '_resolve_inherit']},
     'trace': {'deal/_trace.py': ['trace'], 'deal/_cli/_test.py': ['sys_path', 'fast_iterator', 'run_cases', 'TestCommand.run_tests'],
               'deal/_mem_test.py': ['MemoryTracker.__enter__', 'MemoryTracker.__exit__'], 'deal/_cli/_memtest.py': ['run_cases', 'MemtestCommand.run_tests']},
-    'decoratecli': {'deal/_cli/_decorate.py': ['DecorateCommand.__call__']},
+    'decoratecli': {'deal/_cli/_decorate.py': ['<constants>', 'DecorateCommand.__call__']},
     'lintglue': {'deal/linter/_extractors/returns.py': ['handle_return', 'handle_yield'],
                  'deal/linter/_extractors/definitions.py': ['get_definitions', '_extract_defs_ast', '_extract_defs_astroid'],
-                 'deal/linter/_extractors/common.py': ['get_name', 'get_full_name', 'infer', 'get_stub', '_get_module']},
-    'lintrules': {'deal/linter/_rules.py': ['register', 'CheckImports.__call__', 'CheckEnsureArgs.__call__', 'CheckEnsureArgs._check', 'CheckReturns.__call__', 'CheckExamples.__call__', 'CheckAsserts.__call__'],
-                  'deal/linter/_checker.py': ['Checker.__init__', 'Checker.from_path']},
+                 'deal/linter/_extractors/common.py': ['<constants>', 'get_name', 'get_full_name', 'infer', 'get_stub', '_get_module']},
+    'linttables': {'deal/linter/_extractors/markers.py': ['<constants>'], 'deal/linter/_extractors/exceptions.py': ['<constants>'], 'deal/linter/_stub.py': ['<constants>'],
+                   'deal/linter/_template.py': ['<constants>', 'inject']},
+    'transformerconst': {'deal/linter/_transformer.py': ['<constants>']},
+    'contractsconst': {'deal/_runtime/_contracts.py': ['<constants>'], 'deal/_runtime/_invariant.py': ['<constants>'], 'deal/_runtime/_inherit.py': ['<constants>'],
+                       'deal/introspection/_extractor.py': ['<constants>'], 'deal/_runtime/_decorators.py': ['<constants>']},
+    'lintrules': {'deal/linter/_rules.py': ['<constants>', 'register', 'CheckImports.__call__', 'CheckEnsureArgs.__call__', 'CheckEnsureArgs._check', 'CheckReturns.__call__', 'CheckExamples.__call__', 'CheckAsserts.__call__'],
+                  'deal/linter/_checker.py': ['<constants>', 'Checker.__init__', 'Checker.from_path']},
 }
 
 
+def constants_of(tree):
+    """module-level and class-level assignments (tables, regular expressions, codes, enum members, sentinels): unparsed, joined"""
+    out = []
+    for n in tree.body:
+        if isinstance(n, (ast.Assign, ast.AnnAssign, ast.AugAssign)):
+            out.append(ast.unparse(n))
+        elif isinstance(n, ast.ClassDef):
+            for m in n.body:
+                if isinstance(m, (ast.Assign, ast.AnnAssign)) and not (isinstance(m, ast.AnnAssign) and m.value is None):
+                    out.append(f'{n.name}: ' + ast.unparse(m))
+    return '\n'.join(out)
+
+
 def all_defs(tree, name):
+    if name == '<constants>':
+        return constants_of(tree)
     """every definition with this qualified name (overloads): unparsed, joined"""
     parts = name.split('.')
     def find(body, ps):
